@@ -767,7 +767,7 @@ func settle(srv *lrsrv.Srv, tags string, want int) {
 		for _, c := range cks {
 			fmt.Fprintf(&sb, "%d:%d:%d ", c.Id(), c.Size(), c.Count())
 			n += int(c.Count())
-			if c.Size() == 0 {
+			if c.Size() == 0 && want != 0 {
 				ok = false
 			}
 		}
@@ -1021,10 +1021,15 @@ func judgeSys(secName string, sec *vh.Section, c sysCase, r sysResult, answers [
 			if rm > 0 || !a.Exists {
 				nontrivial = true
 				var by uint64
+				nd := 0 // chunks holding data: a chunk without a single confirmed byte (a write request without events
+				// leaves one) holds nothing that could be removed; it disappears with its empty partition and is not counted
 				for k2 := 0; k2 < rm; k2++ {
 					by += uint64(b.Chunks[k2].Size)
+					if b.Chunks[k2].Size > 0 || len(b.Chunks[k2].Seqs) > 0 {
+						nd++
+					}
 				}
-				actual[i] = removal{rm, by, !a.Exists}
+				actual[i] = removal{nd, by, !a.Exists}
 			}
 			// each removed chunk needs a rule
 			size := b.size()
@@ -1034,6 +1039,9 @@ func judgeSys(secName string, sec *vh.Section, c sysCase, r sysResult, answers [
 			}
 			for k2 := 0; k2 < rm; k2++ {
 				ch := b.Chunks[k2]
+				if ch.Size == 0 && len(ch.Seqs) == 0 {
+					continue // no event is removed with it (allowed only as part of dropping an empty partition, checked below)
+				}
 				newest := int64(-1 << 62)
 				for _, t := range ch.Tss {
 					if t > newest {
@@ -1062,6 +1070,10 @@ func judgeSys(secName string, sec *vh.Section, c sysCase, r sysResult, answers [
 						fail("below-minsize", what+fmt.Sprintf(": size-driven removal leaves %d < MINSIZE", size), a.layout(), b.layout(), matched, eq, "")
 					}
 				}
+			}
+			// an empty chunk goes only together with its (then empty) partition
+			if a.Exists && rm > 0 && b.Chunks[rm-1].Size == 0 && len(b.Chunks[rm-1].Seqs) == 0 && len(a.Chunks) > 0 {
+				res.Dist(sec, "an empty chunk in front of data was removed")
 			}
 			// dropped entirely only when empty and unused
 			if !a.Exists && users[i] > 0 {
